@@ -63,6 +63,12 @@ def length_cases():
         out.append(("line%d-comma" % n, "add " + ",".join(["rax"] * (n // 4))[: n - 4]))
         out.append(("line%d-brk" % n, "mov rax, [" + "rax+" * ((n - 12) // 4) + "rax]"))
         out.append(("line%d-blank" % n, "mov rax, 0x" + "1" * (n - 11) + "   \t "))
+        # a one-character last operand at the very end of a line of n significant characters
+        out.append(("line%d-imm1" % n, "mov [rax+0x" + "0" * (n - 14) + "1],5"))
+        out.append(("line%d-reg1" % n, "add [rbx+0x" + "0" * (n - 14) + "1],a"))
+        out.append(("line%d-end-comma" % n, "mov rax, 0x" + "1" * (n - 11) + ","))
+        out.append(("line%d-end-bracket" % n, "mov rax,[" + "r" * (n - 10) + "]"))
+        out.append(("line%d-end-open" % n, "mov rax, 0x" + "1" * (n - 12) + ",["))
     for n in range(10, 21):
         out.append(("mnemonic%d" % n, "v" * n + " rax, rbx"))
         out.append(("mnemonic%d-alone" % n, "n" * n))
@@ -90,8 +96,9 @@ def length_cases():
 
 def run(tier, seed):
     rep = Report(PROP, tier, seed)
-    rep.rule = ("exhaustive string enumerations executed in-process on an ASan+UBSan (abort mode) build, every input under 6 "
-                "settings ({plain, fitting c=4, counting c=4} x {default, all-STRICT}): (1) all byte strings of length <= 2 over "
+    rep.rule = ("exhaustive string enumerations executed in-process on an ASan+UBSan (abort mode) build, every input under 7 "
+                "settings ({plain, fitting c=4, counting c=4} x {default, all-STRICT}, and fitting c=32 at the last legal offset of a "
+                "41-byte heap buffer): (1) all byte strings of length <= 2 over "
                 "1..255 and of length 3 over 64 symbols, (2) all strings of length <= 5/6 over an 18-symbol structural alphabet, "
                 "(3) all token sequences of depth <= 4/5 over 31 tokens, (4) mnemonic x 0..2/3 operands from a 40-entry menu incl. "
                 "malformed operands and 4..6 operands from a 10-entry menu, (5) every length around each fixed-size parser array "
@@ -191,7 +198,9 @@ def replay(r, verbose=False):
         hs.append("c8192:p:cc\t%sA%s" % (pre, hexec.esc(text)))
     hs.append("c8192:p:cc\tN4:%s" % hexec.esc(text))
     hs.append("c8192:p:cc\ta0\tN4:%s" % hexec.esc(text))
-    res = hexec.run(hs, variant="asan", nproc=1, timeout=25)
+    # the seventh setting: 41-byte buffer ending flush against a PROT_NONE page, chunk 32, offset 21
+    hs.append("c41:e:cc\tk32\to21\tA%s" % hexec.esc(text))
+    res = hexec.run(hs, variant="asan", nproc=1, timeout=25, dangerous=True)
     if verbose:
         print(res)
-    return any(hexec.is_crash(o) or hexec.san_of(o) for o in res)
+    return any(hexec.is_crash(o) or hexec.san_of(o) or any(x[:2] == "A:" and x.endswith(":0") for x in o) for o in res)
